@@ -251,13 +251,19 @@ theorem generic_roundtrip_aux (env : Env) : ∀ (f : Nat) (ty : TyExpr) (v : Val
           simp only [field, this, Option.getD_some]
         -- facts about a rendered field
         have hfd : ∀ fd ∈ s.fields, rendered fd = true →
-            fd.yamlSkip = false ∧ (fd.yamlInline = true → zeroVal env f fd.ty = .null) ∧
+            fd.yamlSkip = false ∧
+            (fd.yamlInline = true → zeroVal env f fd.ty = .null ∧
+              fd.yamlKey ∉ (s.fields.filter (keyed .yaml)).map (keyOf .yaml)) ∧
             (fd.yamlInline = false → plainB env f fd.ty = true) := by
           intro fd hm hr
           rcases hflds fd hm with h | h
           · rw [hr] at h; cases h
           · refine ⟨h.1, ?_, ?_⟩
-            · intro hi; have := h.2; simp only [hi, if_true] at this; exact isNull_eq this
+            · intro hi
+              have := h.2
+              simp only [hi, if_true, Bool.and_eq_true, Bool.not_eq_true', List.contains_eq_mem,
+                decide_eq_false_iff_not] at this
+              exact ⟨isNull_eq this.1, this.2⟩
             · intro hi; have := h.2; simp only [hi, Bool.false_eq_true, if_false] at this; exact this
         have hkeyed_rendered : ∀ fd : FieldDesc, keyed .yaml fd = true → rendered fd = true := by
           intro fd hk
@@ -298,12 +304,14 @@ theorem generic_roundtrip_aux (env : Env) : ∀ (f : Nat) (ty : TyExpr) (v : Val
           obtain ⟨hsk, hinz, hpl⟩ := hfd fd hm hr
           unfold fieldDecoded
           by_cases hi : fd.yamlInline = true
-          · simp only [hsk, hi, Bool.or_true, if_true, hinz hi, (hvals fd hm hr).1 hi]
+          · -- the extension map is nil and the rendering has no `#extensions` key: the zero value is read
+            have hnk : Val.lookup fd.yamlKey out = none :=
+              lookup_none_of_not_mem (fun hmem => (hinz hi).2 (encodeFields_keys .yaml _ _ s.fields fs out hni hout _ hmem))
+            simp only [hsk, Bool.false_eq_true, if_false, hnk, (hinz hi).1, (hvals fd hm hr).1 hi]
           · have hi' : fd.yamlInline = false := by simpa using hi
-            simp only [hsk, hi', Bool.or_false, Bool.false_eq_true, if_false]
-            have hk : keyed .yaml fd = true := by
-              obtain ⟨gn, ty, ex, yk, ys, yo, yi, jk, js, jo⟩ := fd
-              cases ex <;> cases ys <;> cases yi <;> simp_all [keyed, skipOf, rendered]
+            simp only [hsk, Bool.false_eq_true, if_false]
+            have hex : fd.exported = true := by simp only [rendered, Bool.and_eq_true] at hr; exact hr.1
+            have hk : keyed .yaml fd = true := by simp [keyed, skipOf, hex, hsk, hi']
             have hkey : keyOf .yaml fd = fd.yamlKey := rfl
             rcases hrend fd hm hk with ⟨hom, hl⟩ | ⟨hom, t, he, hl⟩
             · rw [hkey] at hl
